@@ -74,6 +74,11 @@ def run(F, R):
     users = [n for n, a in F.adts.items() if a['kind'] == 'struct' and n not in (M.owning_adt,) and any(
         M.owning_adt in f['mentions'] for f in a['variants'][0]['fields'])]
     R.count('users', len(users) + 1)
+    # Q9: the stocked queues run in the negotiated modes (C08.H3)
+    from .C08 import queue_modes_rule
+    queue_modes_rule(F, R, M, 'Q9', ['device::input', 'device::sound', 'device::socket'])
+    # Q10: delivered events are what the device wrote: the notification-type decoding table agrees with the enum's codes
+    decode_tables_rule(F, R, 'Q10', ['device::sound', 'device::input', 'device::socket'])
 
 
 def buffer_slot_terms(t):
